@@ -11,6 +11,7 @@ import (
 	"math/big"
 	"os"
 	"runtime"
+	"strconv"
 	"strings"
 	"sync"
 
@@ -38,6 +39,7 @@ type searcher struct {
 	counts  map[string]int
 	sample  []map[string]string
 	outPath string
+	hangs   int
 }
 
 func (s *searcher) report(key, desc string, expected string, ops ...string) {
@@ -47,6 +49,28 @@ func (s *searcher) report(key, desc string, expected string, ops ...string) {
 	}
 	s.viol = append(s.viol, violation{Key: key, Desc: desc, Replay: map[string]interface{}{"ops": ops, "expected": expected}})
 	s.flush()
+}
+
+// run executes one op line under the panic guard and the per-call deadline; a call that does not return is a
+// violation of its own (`hang:<op>`, replay = the op line); after three of them the search stops.
+func (s *searcher) run(line string) string {
+	r, hung := execDeadline(line)
+	if strings.HasPrefix(r, "INPUT-MUTATED") {
+		s.report("input-mutated:"+strings.Fields(line)[0], "the call wrote into a byte slice owned by the caller: "+r, "inputs unchanged after the call", line)
+	}
+	if strings.HasPrefix(r, "UNSTABLE") {
+		s.report("unstable-answer:"+strings.Fields(line)[0], "the same call on the same in-memory inputs answered differently the second time: "+r, "same answer twice", line)
+	}
+	if hung {
+		s.hangs++
+		s.report("hang:"+strings.Fields(line)[0], "the call did not return within "+callDeadline.String()+" (per-call deadline of the harness)", "an answer", line)
+		if s.hangs >= 3 {
+			s.counts["aborted-after-hangs"] = s.hangs
+			s.write(true)
+			os.Exit(0)
+		}
+	}
+	return r
 }
 
 // flush prints the violation just found and rewrites the (partial) result file, so that nothing found is
@@ -95,7 +119,7 @@ func vline(pk, pi, m []byte) string {
 
 func (s *searcher) verify(pk, pi, m []byte) string {
 	s.evals++
-	return hx.Guard(func() string { return exec(vline(pk, pi, m)) })
+	return s.run(vline(pk, pi, m))
 }
 
 // honest: completeness, determinism, header transport, header-derived output.
@@ -306,8 +330,8 @@ func (s *searcher) qnTransport(nSynthetic, nHonest int) {
 		for _, thr := range thrs {
 			for _, st := range grid(thr) {
 				l1, l2 := qnLine(thr, full, st), qnLine(thr, short, st)
-				r1 := hx.Guard(func() string { return exec(l1) })
-				r2 := hx.Guard(func() string { return exec(l2) })
+				r1 := s.run(l1)
+				r2 := s.run(l2)
 				s.evals += 2
 				if r1 != r2 {
 					s.report("qn-differs-after-transport",
@@ -370,7 +394,7 @@ func (s *searcher) qnTransport(nSynthetic, nHonest int) {
 					continue // the proposer would not cast this block
 				}
 				line := fmt.Sprintf("vbv %d %s %s %s %d %d %d %d %d", thr, hx.Hex(pk), hx.Hex(pv), hx.Hex(m), st.h, st.wm, st.t, 1000+qn, 1000)
-				res := hx.Guard(func() string { return exec(line) })
+				res := s.run(line)
 				s.evals++
 				s.counts["honest-leading-zero-headers-checked"]++
 				if res != "ok" {
@@ -520,7 +544,7 @@ func (s *searcher) history(n int) {
 		res := make([]string, len(lines))
 		for _, i := range order {
 			l := lines[i]
-			res[i] = hx.Guard(func() string { return exec(l) })
+			res[i] = s.run(l)
 			s.evals++
 		}
 		return res
@@ -811,10 +835,32 @@ func (s *searcher) headerSequences(n int) {
 			{vbv(pk2, m1), "reject", "same proof and message, another key"},
 			{vline(pk, pv, rnd2), "reject", "ECVRFVerify: same proof and key, other message"},
 		}
+		// the header's own PreTime field is sender-controlled and not checked against the parent: the message is
+		// f(parent.Random, CurTime - parent.CurTime), so (a) the honest header stays valid whatever PreTime says,
+		// (b) a proof for ANOTHER slot's message does not become valid by forging PreTime to that slot.
+		vbp := func(piX []byte, nsX int64, pt string) string {
+			return fmt.Sprintf("vbp %d %s %s %s %d %s 10 0 %d %d 0", thr, hx.Hex(pk), hx.Hex(new(big.Int).SetBytes(piX).Bytes()), hx.Hex(rnd), nsX, pt, t, qn)
+		}
+		for d := 2; d <= 6; d++ {
+			piD, errD := ed25519.ECVRFProve(sk, logical.VerifC16GenVrfMsg(append([]byte{}, rnd...), d))
+			if errD != nil {
+				continue
+			}
+			var qnD uint64
+			hx.Guard(func() string { _, qnD = logical.VerifC16ValidateProve(piD, 10, 0, t); return "" })
+			line := fmt.Sprintf("vbp %d %s %s %s %d %d 10 0 %d %d 0", thr, hx.Hex(pk), hx.Hex(new(big.Int).SetBytes(piD).Bytes()), hx.Hex(rnd), ns, ns-int64(d-1)*2*sec, t, qnD)
+			wrong = append(wrong, stepT{line, "reject", fmt.Sprintf("a proof made for the message of slot %d, in a header of slot 1 whose PreTime field is forged to make it look like slot %d", d, d)})
+		}
+		for _, pt := range []string{strconv.FormatInt(ns, 10), strconv.FormatInt(-3*sec, 10), strconv.FormatInt(7*sec, 10)} {
+			valid = append(valid, stepT{vbp(pi, ns, pt), "ok", "the honest header with PreTime = parent time + " + pt + " ns"})
+		}
+		if i%3 == 2 { // far-away PreTime last: a tree that derives the slot from PreTime loops for minutes here (deadline)
+			valid = append(valid, stepT{vbp(pi, ns, "past"), "ok", "the honest header with a PreTime far in the past"}, stepT{vbp(pi, ns, "zero"), "ok", "the honest header with a zero PreTime"})
+		}
 		var seq []string
 		run := func(st stepT, phase string) {
 			seq = append(seq, st.line)
-			res := hx.Guard(func() string { return exec(st.line) })
+			res := s.run(st.line)
 			s.evals++
 			accepted := res == "ok" || res == "true"
 			if st.want == "reject" && accepted {
@@ -908,13 +954,13 @@ func (s *searcher) qnRange(n int) {
 	}
 	check := func(thr uint64, p []byte, h, wm, t uint64) {
 		line := fmt.Sprintf("qn %d %s %d %d %d", thr, hx.Hex(p), h, wm, t)
-		res := hx.Guard(func() string { return exec(line) })
+		res := s.run(line)
 		s.evals++
 		if strings.HasPrefix(res, "PANIC") {
 			s.counts["validateProve-panics(division by zero)"]++
 			return
 		}
-		res2 := hx.Guard(func() string { return exec(line) })
+		res2 := s.run(line)
 		if res2 != res {
 			s.report("qn-not-deterministic", "validateProve gave "+res+" then "+res2, res, line)
 		}
